@@ -359,8 +359,8 @@ def result_ty(res):
     return "bool" if res[0] == "bool" else res[1]
 
 
-def build_program(cases, modes=("rt", "ct")):
-    fns, main, expect = [], [], []
+def build_program(cases, modes=("rt", "ct", "gc")):
+    fns, main, expect, globs = [], [], [], []
     for i, c in enumerate(cases):
         res = expected(c)
         fn, call = case_fn(i, c)
@@ -368,11 +368,18 @@ def build_program(cases, modes=("rt", "ct")):
         rt = result_ty(res)
         for mode in modes:
             var = f"r{i}{mode}"
+            if mode == "gc":
+                # the same call as the comptime initialiser of a global constant (its bytes become constant data)
+                globs.append(f"{var} : {rt} : comptime {{ {call} }};")
+                src, exp = print_stmts(var, res)
+                main.append(f"    {src}")
+                expect.append((i, mode, exp, res))
+                continue
             init = call if mode == "rt" else f"comptime {{ {call} }}"
             src, exp = print_stmts(var, res)
             main.append(f"    {var} : {rt} = {init};\n    {src}")
             expect.append((i, mode, exp, res))
-    src = PRELUDE + "\n".join(fns) + "\nmain :: () {\n" + "\n".join(main) + "\n}\n"
+    src = PRELUDE + "\n".join(fns) + "\n" + "\n".join(globs) + "\nmain :: () {\n" + "\n".join(main) + "\n}\n"
     return src, expect
 
 
@@ -424,7 +431,7 @@ def strategy(profile):
     return st.lists(case(frozenset(avoid)), min_size=20, max_size=90)
 
 
-def check(cases, stats, scratch, profile, modes=("rt", "ct")):
+def check(cases, stats, scratch, profile, modes=("rt", "ct", "gc")):
     src, expect = build_program(cases, modes)
     o = runner.run_case(scratch, {"main.capy": src}, compile_timeout=60)
     if o.kind in ("timeout", "exe-timeout"):
@@ -458,7 +465,7 @@ def check(cases, stats, scratch, profile, modes=("rt", "ct")):
                 except ValueError:
                     pass
             s1, _ = build_program([c], (mode,))
-            raise Fail(shape_key(c, mode), f"case `{describe(c)}` evaluated at {'run time' if mode == 'rt' else 'compile time'}: expected {exp.strip()!r}, got {g.strip()!r}\n--- one-case program ---\n{s1}",
+            raise Fail(shape_key(c, mode), f"case `{describe(c)}` evaluated at {'run time' if mode == 'rt' else 'compile time' if mode == 'ct' else 'compile time as the initialiser of a global'}: expected {exp.strip()!r}, got {g.strip()!r}\n--- one-case program ---\n{s1}",
                        {"cases": [c], "modes": [mode]})
     if len(stats.samples) < 3:
         stats.sample({"cases": [describe(c) for c in cases[:6]], "expected_lines": [e[2].strip() for e in expect[:12]]})
@@ -467,7 +474,7 @@ def check(cases, stats, scratch, profile, modes=("rt", "ct")):
 def replay_payload(payload, scratch):
     st_ = core.Stats()
     try:
-        check(payload["cases"], st_, scratch, "replay", tuple(payload.get("modes", ("rt", "ct"))))
+        check(payload["cases"], st_, scratch, "replay", tuple(payload.get("modes", ("rt", "ct", "gc"))))
     except Fail as f:
         return f.key
     return None
